@@ -8,7 +8,7 @@ C12_<model>.v : interval lemmas for the routines that adjust the cycle counter, 
 import re
 
 SIG_RE = re.compile(r"\(\* (\S+):(\d+)  func (\S+) \*\)\nDefinition (\S+) ((?:\([^)]*\) ?)*)\s*(?:\(s : st\) )?: (res )?(.+?) :=\n")
-WIDTH = {"w8": 8, "w16": 16, "w32": 32, "w64": 64}
+WIDTH = {"zw8": 8, "zw16": 16, "zw32": 32, "zw64": 64}
 EA, CY, AC, SP = "f_StepInfo_EA", "f_Cycles", "f_AllCycles", "f_Stopped"
 TRUE = "(fun _ => True)"
 
@@ -102,7 +102,7 @@ def preds(M, name):
 def premises(f):
     prem = []
     for n, t in f["params"]:
-        if t == "w32":
+        if t == "zw32":
             prem.append("rng 24 %s" % n)      # every 32-bit parameter of the interpreters is a bus address
         elif t in WIDTH:
             prem.append("rng %d %s" % (WIDTH[t], n))
@@ -111,7 +111,7 @@ def premises(f):
 
 def result_pred(f):
     # a 32-bit result of the bus helpers is a 24-bit address (nRead24_wrap / EaRead24_wrap)
-    return ("rng 24 r" if f["ret"] == "w32" else "rng %d r" % WIDTH[f["ret"]]) if f["ret"] in WIDTH else "True"
+    return ("rng 24 r" if f["ret"] == "zw32" else "rng %d r" % WIDTH[f["ret"]]) if f["ret"] in WIDTH else "True"
 
 
 def call_thunk(M, f, extra=None, prefer=None):
@@ -320,7 +320,7 @@ Qed.
 """ % (decm, decx, pc, dl, decm, decx, pc, dl, decm, decx, pc, dl, decm, decx, pc, dl))
     step = M.byname["Step"]
     call = call_thunk(M, step, extra="safeC_tbl_proc")
-    out.append("""Definition StepPost (a0 st0 : Z) (r : w0 * bool) (s' : st) : Prop :=
+    out.append("""Definition StepPost (a0 st0 : Z) (r : zw0 * bool) (s' : st) : Prop :=
   exists c, r = (c, z2b (get f_Stopped s')) /\\ 1 <= c <= 255 /\\ get f_Cycles s' = c /\\ get f_AllCycles s' = add64 a0 c /\\
             (get f_Stopped s' = st0 \\/ get f_Stopped s' = 1).
 
